@@ -14,3 +14,5 @@ import TLX.Props.C10
 import TLX.Props.C12
 import TLX.Props.C17
 import TLX.Props.C01Suites
+import TLX.Props.C04
+import TLX.Props.C18
